@@ -9,9 +9,10 @@
      defm <sym> <name> <type> <addrs> <port> <txt>  -> ok    (remember an mDNS service info)
      defb <sym> <hex|none>                          -> ok    (remember BLE manufacturer data)
      sched <mdns|ble|bleorig|blenoguard|agg> ev ...
+        one group per harness event, group = ev+ev+..,
         ev = F.<k>.<idhex>.<tau> | A.<sym> | AM.<sym> | AB.<sym> | C.<k> | T.<delta> | L.<idhex>.<0|1>
-        -> per event the outputs joined by ',' ("-" if none), then "|" and the discoveries
-           output = <k>:found:<idhex>:<cn>:<sn>:<t> | <k>:notfound:<t> | <k>:cancelled:<t> | raised *)
+        -> <k>=<outcome>;.. (sorted by k) | groups in which a callback raised | discoveries
+           outcome = found:<idhex>:<cn>:<sn>:<t> | notfound:<t> | cancelled:<t> *)
 open Drv
 let ni s = n_of_int (int_of_string s)
 let addr_of tok = match Stdlib.String.split_on_char ':' tok with
@@ -54,43 +55,72 @@ let discs_str (l : (BinNums.coq_N list * Find.descr) list) =
   Stdlib.String.concat "," (Stdlib.List.sort compare (Stdlib.List.map (fun (k, (d : Find.descr)) ->
       Printf.sprintf "%s:%s:%s" (hex_of_bytes k) (dec_of_z d.d_cn) (dec_of_z d.d_sn)) l))
 
-let sched_single (c : Find.cfg) evs =
-  let s = ref Find.st0 and acc = ref [] in
-  Stdlib.List.iter (fun tok ->
-      let (s', o) = match Stdlib.String.split_on_char '.' tok with
-        | ["F"; k; i; tau] -> Find.step c !s (Find.Find (nat_of_int (int_of_string k), bytes_of_hex i, ni tau))
-        | ["A"; sym] ->
-          (match c.ckind with
-           | Find.MDNS -> Find.mdns_callback c !s (Hashtbl.find msyms sym)
-           | Find.BLE -> Find.ble_callback c !s (Hashtbl.find bsyms sym))
-        | ["C"; k] -> Find.step c !s (Find.Cancel (nat_of_int (int_of_string k)))
-        | ["T"; d] -> Find.step c !s (Find.Advance (ni d))
-        | ["L"; i; b] -> Find.step c !s (Find.Load (bytes_of_hex i, b = "1"))
-        | _ -> failwith ("event " ^ tok) in
-      s := s'; acc := outs_str o :: !acc) evs;
-  Stdlib.String.concat " " (Stdlib.List.rev !acc) ^ " | " ^ discs_str !s.discs
+(* a schedule is a list of groups "tok+tok+..": one group per harness event; the answer is canonical:
+   <k>=<outcome>;... sorted by k | indexes of the groups in which a callback raised | discoveries *)
+let canon_answer (cells : (int * string) list) (raised : int list) (discs : string) =
+  let cells = Stdlib.List.sort compare cells in
+  Stdlib.String.concat ";" (Stdlib.List.map (fun (k, o) -> string_of_int k ^ "=" ^ o) cells)
+  ^ "|" ^ Stdlib.String.concat "," (Stdlib.List.map string_of_int (Stdlib.List.rev raised)) ^ "|" ^ discs
+let cell_of = function
+  | Find.Raised -> None
+  | Find.Done (k, o, t) ->
+    Some (int_of_nat k, (match o with
+     | Find.Found d -> Printf.sprintf "found:%s:%s:%s:%d" (hex_of_bytes d.d_id) (dec_of_z d.d_cn) (dec_of_z d.d_sn) (int_of_n t)
+     | Find.NotFound -> Printf.sprintf "notfound:%d" (int_of_n t)
+     | Find.Cancelled -> Printf.sprintf "cancelled:%d" (int_of_n t)))
+let run_groups (stepf : string list -> Find.out list) groups =
+  let cells = ref [] and raised = ref [] in
+  Stdlib.List.iteri (fun gi g ->
+      Stdlib.List.iter (fun tok ->
+          Stdlib.List.iter (fun o -> match cell_of o with
+              | None -> if not (Stdlib.List.mem gi !raised) then raised := gi :: !raised
+              | Some (k, c) ->
+                if Stdlib.List.mem_assoc k !cells
+                then cells := (k, "twice(" ^ Stdlib.List.assoc k !cells ^ "," ^ c ^ ")") :: Stdlib.List.remove_assoc k !cells
+                else cells := (k, c) :: !cells)
+            (stepf (Stdlib.String.split_on_char '.' tok)))
+        (Stdlib.String.split_on_char '+' g)) groups;
+  (!cells, !raised)
 
-let sched_agg evs =
-  let a = ref Find.agg0 and acc = ref [] in
-  Stdlib.List.iter (fun tok ->
-      let (a', o) = match Stdlib.String.split_on_char '.' tok with
-        | ["F"; k; i; tau] -> Find.astep !a (Find.AFind (nat_of_int (int_of_string k), bytes_of_hex i, ni tau))
-        | ["AM"; sym] ->
-          let d = (match Find.from_service_info (Hashtbl.find msyms sym) with
-              | Res.Ok h -> Some (Find.svc_descr h) | _ -> None) in
-          Find.astep !a (Find.AAdvM d)
-        | ["AB"; sym] ->
-          let md = Hashtbl.find bsyms sym in
-          let d = (match md with
-              | Some (t :: _) when int_of_n t = 6 ->
-                (match Find.adv_parse md with Res.Ok x -> Some (Find.adv_descr x) | _ -> None)
-              | _ -> None) in
-          Find.astep !a (Find.AAdvB d)
-        | ["C"; k] -> Find.astep !a (Find.ACancel (nat_of_int (int_of_string k)))
-        | ["T"; d] -> Find.astep !a (Find.AAdvance (ni d))
-        | _ -> failwith ("event " ^ tok) in
-      a := a'; acc := outs_str o :: !acc) evs;
-  Stdlib.String.concat " " (Stdlib.List.rev !acc) ^ " | " ^ discs_str !a.a_ip.discs ^ " / " ^ discs_str !a.a_ble.discs
+let sched_single (c : Find.cfg) groups =
+  let s = ref Find.st0 in
+  let stepf tok =
+    let (s', o) = match tok with
+      | ["F"; k; i; tau] -> Find.step c !s (Find.Find (nat_of_int (int_of_string k), bytes_of_hex i, ni tau))
+      | ["A"; sym] ->
+        (match c.ckind with
+         | Find.MDNS -> Find.mdns_callback c !s (Hashtbl.find msyms sym)
+         | Find.BLE -> Find.ble_callback c !s (Hashtbl.find bsyms sym))
+      | ["C"; k] -> Find.step c !s (Find.Cancel (nat_of_int (int_of_string k)))
+      | ["T"; d] -> Find.step c !s (Find.Advance (ni d))
+      | ["L"; i; b] -> Find.step c !s (Find.Load (bytes_of_hex i, b = "1"))
+      | _ -> failwith "event" in
+    s := s'; o in
+  let (cells, raised) = run_groups stepf groups in
+  canon_answer cells raised (discs_str !s.discs)
+
+let sched_agg groups =
+  let a = ref Find.agg0 in
+  let stepf tok =
+    let (a', o) = match tok with
+      | ["F"; k; i; tau] -> Find.astep !a (Find.AFind (nat_of_int (int_of_string k), bytes_of_hex i, ni tau))
+      | ["AM"; sym] ->
+        let d = (match Find.from_service_info (Hashtbl.find msyms sym) with
+            | Res.Ok h -> Some (Find.svc_descr h) | _ -> None) in
+        Find.astep !a (Find.AAdvM d)
+      | ["AB"; sym] ->
+        let md = Hashtbl.find bsyms sym in
+        let d = (match md with
+            | Some (t :: _) when int_of_n t = 6 ->
+              (match Find.adv_parse md with Res.Ok x -> Some (Find.adv_descr x) | _ -> None)
+            | _ -> None) in
+        Find.astep !a (Find.AAdvB d)
+      | ["C"; k] -> Find.astep !a (Find.ACancel (nat_of_int (int_of_string k)))
+      | ["T"; d] -> Find.astep !a (Find.AAdvance (ni d))
+      | _ -> failwith "event" in
+    a := a'; o in
+  let (cells, raised) = run_groups stepf groups in
+  canon_answer cells raised (discs_str !a.a_ip.discs ^ " / " ^ discs_str !a.a_ble.discs)
 
 let handle = function
   | ["psvc"; name; ty; addrs; port; txt] -> res_str svc_str (Find.from_service_info (svc_of name ty addrs port txt))
